@@ -35,7 +35,8 @@ OWNERS = {
     "bitmap.Getw": ["C14"], "bitmap.Rank64": ["C01"], "bitmap.Rank128": ["C01"],
     "bitstr.Len": ["C09"],
     "bitmap.FromStr32": ["C11"], "bmtree.PathOf": ["C11"],
-    "bitmap.TailBitmap.Get": ["C15"], "bitmap.TailBitmap.Get1": ["C15"], "bitword.bitWord.Get": ["C08"], "bitword.bitWord.FirstDiff": ["C08"],
+    "bitmap.TailBitmap.Get": ["C15"], "bitmap.TailBitmap.Get1": ["C15"], "bitword.bitWord.Get": ["C08"], "bitword.bitWord.FirstDiff": ["C08"], "bitword.newBW": ["C08"],
+    "bitmap.Select32": ["C02"], "bitmap.Select32R64": ["C02"], "bitmap.select32single": ["C02"], "bitmap.selectU64Indexed": ["C02"], "bitmap.indexSelectU64": ["C02"],
     "iohelper.NewSectionWriter": ["C18"], "iohelper.AtToWriter": ["C18"],
     "iohelper.SectionWriter.Seek": ["C18"], "iohelper.SectionWriter.Size": ["C18"],
     # listed to document the bail-out (loops): unsupported in the baseline as well
@@ -119,7 +120,9 @@ def update_baseline(repo="/repo"):
         pass
     fns = {}
     for n, r in cur.items():
-        fns[n] = {"hash": r["hash"], "status": r["status"], "owners": OWNERS.get(n, []), "coq": r["coq"]}
+        fns[n] = {"hash": r["hash"], "status": r["status"], "owners": OWNERS.get(n, []), "coq": r["coq"],
+                  # an equality proof exists (otherwise the function is translated for change detection only)
+                  "proved": os.path.exists(os.path.join(ROOT, "coq", "theories", "Proofs", "TransEq_%s.v" % r["coq"]))}
         if r["status"] == "translated":
             fns[n]["def"] = r["def"]
             fns[n]["calls"] = r.get("calls") or []
